@@ -70,6 +70,11 @@ func runLift40(a *args) {
 			col.sample(map[string]interface{}{"vector": key, "family": what, "effective_class": c, "model_tenths": want})
 		}
 		switch prop {
+		case "C09":
+			col.count("realisations scored without panic", 1)
+			if p {
+				col.violate(Violation{Property: prop, Kind: "scoring method panicked on a reachable object", Version: "4.0", Input: key, Expected: "no panic", Observed: msg})
+			}
 		case "C11":
 			col.count("realisations checked for one-decimal scores in range", 1)
 			checkTenth(col, prop, versions["4.0"], o, "score", got, p, msg, 0)
@@ -194,7 +199,7 @@ func runLift40(a *args) {
 		}
 	}
 	// (p) every pair of (Modified metric, value) x (Modified metric, value), base values random
-	if prop == "C10" || prop == "C04" {
+	if prop == "C10" || prop == "C04" || prop == "C09" {
 		var mods []string
 		for _, mm := range tb.modOf {
 			if mm != "" {
